@@ -3,7 +3,8 @@ DISPATCH_HELPER = '''
 impl Dispatch {
     /// verification-only: a `Dispatch` that is NOT registered with the global callsite registry,
     /// so a harness can start from an arbitrary registry state instead of an API-reachable one.
-    pub(crate) fn __verif_unregistered<C: Collect + Send + Sync + 'static>(c: C) -> Self {
+    #[doc(hidden)]
+    pub fn __verif_unregistered<C: Collect + Send + Sync + 'static>(c: C) -> Self {
         Dispatch { collector: Kind::Scoped(Arc::new(c)) }
     }
 }
@@ -30,7 +31,11 @@ def build_interest(ex):
 PLAN = dict(
     id="C01",
     level="proof",
-    explanation="(filled below)",
+    explanation="Cache soundness as an inductive invariant I1 (the cached interest of every registered callsite is the Interest::and-fold over a list that contains every live collector; MAX_LEVEL bounds every live collector's hint). Interest::and is extracted from /repo and proved against its spec in Verus; the fold lemma (unbounded number of collectors), preservation of I1 by new/drop/register/rebuild and the guard lemma (with I1 and a self-consistent current collector the macro guard passes iff the collector's own filter accepts) are Verus lemmas whose hypotheses are the function contracts that Kani discharges on the real tracing-core: rebuild_callsite_interest and rebuild_interest from ARBITRARY prior cache bytes / MAX_LEVEL (bounded: 3 registrars, live or dropped, x 2 callsites), LinkedList push/for_each (bounded 3). The real event!/span!/enabled! expansions with the real MacroCallsite and global registry are checked in the thorough tier (first hit and cached hit, symbolic other collector).",
+    functions_under_contract=['tracing-core/src/collect.rs: Interest::and, Interest::sometimes (Verus, extracted)', 'tracing-core/src/callsite.rs: rebuild_callsite_interest, rebuild_interest, LinkedList::push, LinkedList::for_each (Kani, in-module)', 'tracing/src/macros.rs event!/span!/enabled! + tracing/src/lib.rs MacroCallsite::{interest,register,is_enabled,set_interest} + callsite::register / register_dispatch (Kani, thorough tier)'],
+    trusted_base=["Kani 0.68 / CBMC 6.11 / CaDiCaL; Kani's std build (nightly-2026-08-21), not the repo toolchain's", 'core::fmt::Formatter::pad stubbed to Ok(()) with -Z stubbing (panic-message formatting on infeasible error branches; no harness that uses it reads formatted text)', 'Verus 0.2026.09.13 / Z3; extraction T1/T2/T7 (visibility, derive list, Structural marker on the field-less enum)', 'once_cell::sync::Lazy contract stub; thread_local! shim'],
+    assumptions=['Iterator::filter_map / fold apply the closure left to right over the slice (std)', 'interleavings of registration with Dispatch::new are property C04 (not applicable to this technique)', 'a collector whose static answer or hint changes calls rebuild_interest_cache (documented obligation of Collect implementors)'],
+    not_covered=['release_max_level_* / max_level_* cargo features (compile-time STATIC_MAX_LEVEL other than TRACE)', 'no_std build of callsite::inner'],
     verus=[dict(name="interest", builder="build_interest", exec_fns=["and", "sometimes"],
                 obligations=["and", "sometimes", "fold_sound", "step_rebuild_preserves", "step_drop_preserves", "step_register_preserves", "guard_exact", "init_inv"])],
     kani=[dict(
@@ -39,8 +44,11 @@ PLAN = dict(
                       modpath="callsite::inner", files=["../common/core_prelude.rs", "../common/core_stub.rs", "core_cache.kani.rs"])],
         append=[dict(file="tracing-core/src/dispatch.rs", text=DISPATCH_HELPER, kind="cfg(kani) constructor helper")],
     ), dict(
-        crate="tracing", tls_shim_crates=["tracing-core"], once_cell_stub=True, tag="macros",
+        crate="tracing", tls_shim_crates=["tracing-core"], once_cell_stub=True, tag="macros", jobs=4, timeout_s=3000,
         modules=[dict(name="__verif_c01", attach="lib", files=["macro_guard.kani.rs"])],
     )],
-    manifest=dict(technique="x", text="x", note="x"),
+    manifest=dict(technique='Verus lemmas (fold, invariant preservation, guard exactness) over Kani-discharged contracts of the real registry functions; real macro expansions under Kani in the thorough tier',
+        text='The unbounded part (any number of collectors, any finite history, guard exactness) is proved in Verus from function contracts; those contracts are discharged by Kani on the real code from arbitrary prior cache state, with a stated width bound (3 registrars x 2 callsites) that the fold lemma generalises. The real macros are exercised end to end in the thorough tier.',
+        note='Trusted: Kani/CBMC, Verus/Z3, the shims and stubs listed in evidence. Bounded, never counted as proved: registrar-list width 3, callsite-list length 3. Not decided: interleavings (C04), non-default max_level features.',
+        design_ref="DESIGN.md section 4, C01"),
 )
